@@ -67,6 +67,8 @@ func runC17(w *World, r *Report) {
 	r.Rule("C17-R3", "reload exhaustiveness", "Reload has a case for every MetaMsgType constant and assigns into every table", 4)
 	r.Rule("C17-R9", "tables are keyed [task][message] everywhere", "every lookup or update of dropCollectionMsgs / dropPartitionMsgs uses a task id for the outer table and a message id for the inner one (Update*, Get*, Remove, Reload alike)", 10)
 	c17KeyRoles(w, r)
+	r.Rule("C17-R10", "entries are deleted by RemoveTaskMsg only, from both tables independently", "no function of ReplicateMeteImpl other than RemoveTaskMsg deletes from dropCollectionMsgs / dropPartitionMsgs (a failed store write does not throw away what earlier reports accumulated); in RemoveTaskMsg the delete from each table is reached whatever the lookup in the other table says", 3)
+	c17Deletes(w, r)
 	r.Rule("C17-R4", "merge is a union; readiness is of the persisted value", "in the merge branch X.Base.ReadyChannels = lo.Union(old, new); the bool returned on success is X.Base.IsReady() of the X that was persisted", 8)
 	r.Rule("C17-R5", "one key for memory and store", "the MsgID/TaskID used for the in-memory entry equal those given to GetMetaKey for the Put", 6)
 
@@ -553,5 +555,80 @@ func c17KeyRoles(w *World, r *Report) {
 	}
 	if n < 10 {
 		r.Fail("C17-R9", "table key census", 0, fmt.Sprintf("only %d keyed accesses of the drop-message tables found (10 confirmed)", n))
+	}
+}
+
+// c17Deletes: C17-R10.
+func c17Deletes(w *World, r *Report) {
+	tableOf := func(v ssa.Value) string {
+		for _, y := range backSlice(v, SliceOpts{MaxDepth: 5, NoAggregates: true}) {
+			p := w.accessPath(y)
+			if strings.HasSuffix(p, ".dropCollectionMsgs") {
+				return "dropCollectionMsgs"
+			}
+			if strings.HasSuffix(p, ".dropPartitionMsgs") {
+				return "dropPartitionMsgs"
+			}
+		}
+		return ""
+	}
+	dels := map[string]*ssa.Call{}
+	var rm *ssa.Function
+	for _, fn := range w.RepoFuncs() {
+		if fn.Pkg.Pkg.Path() != pkgMeta || fnSym(rootFunc(fn)).recv != "ReplicateMeteImpl" {
+			continue
+		}
+		eachInstr(fn, func(in ssa.Instruction) {
+			c, ok := in.(*ssa.Call)
+			if !ok {
+				return
+			}
+			b, isB := c.Call.Value.(*ssa.Builtin)
+			if !isB || b.Name() != "delete" {
+				return
+			}
+			t := tableOf(c.Call.Args[0])
+			if t == "" {
+				return
+			}
+			if fnSym(rootFunc(fn)).name != "RemoveTaskMsg" {
+				r.Fail("C17-R10", shortFn2(fn)+" | delete from "+t, c.Pos(), "an in-memory entry is deleted outside RemoveTaskMsg: after a failed store write the shards reported so far are forgotten, and the retried report starts the set again from one shard")
+				return
+			}
+			dels[t] = c
+			rm = fn
+		})
+	}
+	if rm == nil || len(dels) < 2 {
+		r.Fail("C17-R10", "(*ReplicateMeteImpl).RemoveTaskMsg | deletes from both tables", 0, fmt.Sprintf("%d of 2 tables are deleted from", len(dels)))
+		return
+	}
+	r.OK("C17-R10", "who may delete", rm.Pos(), "only RemoveTaskMsg")
+	// independence: the delete from one table does not hang on the lookup result of the other
+	for t, d := range dels {
+		dep := ""
+		for _, b := range rm.Blocks {
+			cond, tb, fb, isIf := ifSuccs(b)
+			if !isIf {
+				continue
+			}
+			ex, isEx := cond.(*ssa.Extract)
+			if !isEx {
+				continue
+			}
+			lk, isL := ex.Tuple.(*ssa.Lookup)
+			if !isL {
+				continue
+			}
+			other := tableOf(lk.X)
+			if other == "" || other == t {
+				continue
+			}
+			rt, rf := blockReachIncl(tb), blockReachIncl(fb)
+			if rt[d.Block()] != rf[d.Block()] {
+				dep = other
+			}
+		}
+		r.Check(dep == "", "C17-R10", "(*ReplicateMeteImpl).RemoveTaskMsg | delete from "+t+" is unconditional", d.Pos(), "reached whatever the other table holds", "the delete from "+t+" is only reached on one outcome of the lookup in "+dep+": a removed message stays in memory (still marked ready) although the store no longer has it")
 	}
 }
